@@ -106,7 +106,11 @@ func (m *MethodEvaluator) errorResolve() error {
 
 	// the return types collected so far belong to the enclosing method: an
 	// undefined-method diagnostic in its body does not take them back
+	// (the completion target stays the receiver of the undefined method: `x.`
+	// on the last line of a file asks for x's methods)
+	lspSuggestTargetT := m.parser.LspSuggestTargetT
 	m.parser.SetLastEvaluatedT(base.MakeUnknown())
+	m.parser.LspSuggestTargetT = lspSuggestTargetT
 
 	return nil
 }
